@@ -1,3 +1,4 @@
+import RactorModel.Extracted
 import RactorModel.Lemmas.AdmissionCore
 import RactorModel.Lemmas.AdmissionLate
 import RactorModel.Lemmas.AdmissionIds
@@ -152,6 +153,25 @@ theorem repeated_drain_changes_nothing (s : Shared) (parent : Frame) (rest : Lis
     simp [stepThread, finish, kindOf, mRet, markerCond, stDraining, stStopping]
   · simp [stepThread, finish, kindOf, mRet, markerCond, h]
 
+/-! ### Source guards (E-SRC): the tables the model depends on, re-extracted from the sources on
+every run -/
+
+/-- `ActorStatus` discriminants used by the status gate of `send` and by `drain`. -/
+theorem src_status_discriminants :
+    (Extracted.statusDiscriminants.lookup "Draining", Extracted.statusDiscriminants.lookup "Stopping",
+      Extracted.statusDiscriminants.lookup "Stopped") = (some stDraining, some stStopping, some stStopped) := by
+  decide
+
+/-- Layout of the admission word: closed = top bit, marker = next bit, count = the bits below. -/
+theorem src_admission_word_layout :
+    (Extracted.admissionClosedIsTopBit && Extracted.admissionMarkerIsNextBit
+      && Extracted.admissionCountMaskBelowMarker) = true := by decide
+
+/-- `drain()` = close admission, then publish `Draining`, then try to emit the marker. -/
+theorem src_drain_steps :
+    Extracted.drainSteps = ["close_message_admission()", "fetch_update", "send_drain_marker()"] := by
+  decide
+
 /-! ### Non-vacuity: concrete programs and schedules -/
 
 /-- sender 0 is admitted, the drainer (thread 1) closes while the ticket is held and finds
@@ -189,3 +209,6 @@ end C07
 #print axioms C07.marker_implies_closed_and_idle
 #print axioms C07.drain_completes
 #print axioms C07.repeated_drain_changes_nothing
+#print axioms C07.src_status_discriminants
+#print axioms C07.src_admission_word_layout
+#print axioms C07.src_drain_steps
